@@ -81,9 +81,10 @@ def gen_plan_c08b(seed, tier, index):
         plan['regions_from_xml'] = True
         plan['outputs'] = ['xml'] + (['lines'] if r.random() < 0.5 else [])
         plan['cfg'].pop('decoder')
+        plan['layout_ocr'] = r.random() < 0.7       # read the detected lines too (then not poolable: TorchScript engine)
     scen = []
     for _ in range(r.randint(1, 3)):
-        kind = r.choice(['seq', 'pool', 'pool', 'crash']) if mode in ('decode', 'layout') else r.choice(['seq', 'crash'])
+        kind = r.choice(['seq', 'pool', 'pool', 'crash']) if (mode == 'decode' or (mode == 'layout' and not plan.get('layout_ocr'))) else r.choice(['seq', 'crash'])
         if big and not scen:
             kind = 'pool'
         procs = (2 if big else r.choice([2, 3])) if kind == 'pool' else 1
@@ -108,6 +109,27 @@ def _page_result_from_xml(path):
     from pero_ocr.core.layout import PageLayout
     lay = PageLayout(file=path)
     return [[ln.id, ln.transcription, ln.transcription_confidence] for ln in lay.lines_iterator()]
+
+
+def _semantic_difference(rel, path_a, path_b):
+    """C08 is about lines, transcriptions and confidences: PAGE XML files are compared as
+    [(line id, text, confidence)], ALTO files as [(word, word confidence)] per text line; a missing file is a
+    difference; logits, crops and renderings only count through the PAGE XML / ALTO they belong to."""
+    if not (os.path.exists(path_a) and os.path.exists(path_b)):
+        return True
+    kind = rel.split('/')[0]
+    try:
+        if kind == 'xml':
+            return _page_result_from_xml(path_a) != _page_result_from_xml(path_b)
+        if kind == 'alto':
+            import lxml.etree as ET
+
+            def words(p):
+                return [[(s.get('CONTENT'), s.get('WC')) for s in tl.iter('{*}String')] for tl in ET.parse(p).getroot().iter('{*}TextLine')]
+            return words(path_a) != words(path_b)
+    except Exception:
+        return True
+    return False
 
 
 def execute_c08b(plan):
@@ -172,6 +194,12 @@ def execute_c08b(plan):
                 if pid in failed_pages:
                     continue
                 for f, dg in ref[pid].items():
+                    if snap.get(f) != dg and not _semantic_difference(f, os.path.join(out, f),
+                                                                      os.path.join(world.root, 'alone%d' % ids.index(pid), 'out', f)):
+                        # only geometry / rendering differs: outside the property, which speaks of the lines'
+                        # transcriptions and confidences (counted, not asserted)
+                        res.probe('difference_confined_to_geometry')
+                        continue
                     if snap.get(f) != dg:
                         got = _page_result_from_xml(os.path.join(out, 'xml', pid + '.xml')) if os.path.exists(os.path.join(out, 'xml', pid + '.xml')) else None
                         alone = _page_result_from_xml(os.path.join(world.root, 'alone%d' % ids.index(pid), 'out', 'xml', pid + '.xml'))
